@@ -216,8 +216,8 @@ def run(prog, tier, res):
             ok = False
             for (d, rel, vals) in fan.atoms_at(bb):
                 tr = truth_of(rel, vals)
-                c = as_cmp(d, True)
-                if c and c[0] == "Eq" and tr is False:
+                c = as_cmp(d, tr) if tr is not None else None       # the comparison that holds on this edge
+                if c and c[0] == "Ne":
                     sides = [strip(c[1]), strip(c[2])]
                     zero = any(fconst(x) == 0.0 for x in sides)
                     th = any(x[0] == "call" and is_uom(x[1], "get") and same(strip(x[2][0]), den) for x in sides)
